@@ -169,11 +169,25 @@ impl<NonceSize: Unsigned, Rounds, IsX> ChaChaAny<NonceSize, Rounds, IsX> {
     }
 }
 
-impl<NonceSize, Rounds: Unsigned, IsX> ChaChaAny<NonceSize, Rounds, IsX> {
+impl<NonceSize: Unsigned, Rounds: Unsigned, IsX> ChaChaAny<NonceSize, Rounds, IsX> {
     #[inline]
     fn try_apply_keystream(&mut self, data: &mut [u8]) -> Result<(), ()> {
+        if NonceSize::U32 != 12 {
+            return self
+                .state
+                .try_apply_keystream::<WideEnabled>(data, Rounds::U32);
+        }
+        // The block counter is incremented as a 64-bit integer. With a 96-bit nonce its upper half
+        // is the first nonce word, which must survive the carry out of the final block.
+        let nonce0 = self.state.state.get_stream_param(0) >> 32;
+        let result = self
+            .state
+            .try_apply_keystream::<WideEnabled>(data, Rounds::U32);
+        let ctr = self.state.state.get_stream_param(0) & 0xffff_ffff;
         self.state
-            .try_apply_keystream::<WideEnabled>(data, Rounds::U32)
+            .state
+            .set_stream_param(0, (nonce0 << 32) | ctr);
+        result
     }
 }
 
@@ -221,7 +235,9 @@ impl<NonceSize: Unsigned, Rounds, IsX> StreamCipherSeek for ChaChaAny<NonceSize,
     }
 }
 
-impl<NonceSize, Rounds: Unsigned, IsX> StreamCipher for ChaChaAny<NonceSize, Rounds, IsX> {
+impl<NonceSize: Unsigned, Rounds: Unsigned, IsX> StreamCipher
+    for ChaChaAny<NonceSize, Rounds, IsX>
+{
     #[inline]
     fn try_apply_keystream(&mut self, data: &mut [u8]) -> Result<(), LoopError> {
         Self::try_apply_keystream(self, data).map_err(|_| LoopError)
